@@ -457,6 +457,47 @@ theorem span_resolve (s : Span) (c : Ctx) :
       simp [Span.needsResolve, Endpoint.needsResolve, hp, hq]
     · cases h
 
+/-- **Operator constructors.** `p >> q` is the forward span `p, p+1, …, q` and `p << q` the backward span `q, q-1, …, p`
+(arrow reading), for periods of one frequency; with `None` (or a contextual end) on either side the missing end is the
+contextual `start`/`end` in the direction of the arrow, and resolving it against a context gives the same span as the
+operator applied to the resolved ends. Periods of different frequencies are rejected. -/
+theorem span_operators (f : Freq) (a b x : Int) :
+    Span.rshift (some (.res ⟨f, a⟩)) (some (.res ⟨f, b⟩)) = .ok ⟨.res ⟨f, a⟩, .res ⟨f, b⟩, 1⟩ ∧
+    Span.lshift (some (.res ⟨f, a⟩)) (some (.res ⟨f, b⟩)) = .ok ⟨.res ⟨f, b⟩, .res ⟨f, a⟩, -1⟩ ∧
+    (∃ l, (⟨.res ⟨f, a⟩, .res ⟨f, b⟩, 1⟩ : Span).serials = .ok (some l) ∧ (x ∈ l ↔ a ≤ x ∧ x ≤ b) ∧
+      ∀ i : Nat, (h : i < l.length) → l[i] = a + (i : Int)) ∧
+    (∃ l, (⟨.res ⟨f, b⟩, .res ⟨f, a⟩, -1⟩ : Span).serials = .ok (some l) ∧ (x ∈ l ↔ a ≤ x ∧ x ≤ b) ∧
+      ∀ i : Nat, (h : i < l.length) → l[i] = b - (i : Int)) := by
+  refine ⟨by simp [Span.rshift, Span.make, pure, Except.pure], by simp [Span.lshift, Span.make, pure, Except.pure], ?_, ?_⟩
+  · obtain ⟨l, hl, hm⟩ := span_enumerates f a b 1 x (by decide)
+    obtain ⟨l', hl', _, _, hi, _⟩ := span_len_iter_getItem f a b 1 (by decide)
+    have e : l' = l := by rw [hl] at hl'; cases hl'; rfl
+    subst e
+    refine ⟨l', hl, ?_, fun i h => by have := (hi i h).2; omega⟩
+    rw [hm]
+    constructor
+    · rintro ⟨i, rfl, h1, _⟩; have := h1 (by decide); omega
+    · rintro ⟨h1, h2⟩; exact ⟨(x - a).toNat, by omega, fun _ => h2, fun h => by omega⟩
+  · obtain ⟨l, hl, hm⟩ := span_enumerates f b a (-1) x (by decide)
+    obtain ⟨l', hl', _, _, hi, _⟩ := span_len_iter_getItem f b a (-1) (by decide)
+    have e : l' = l := by rw [hl] at hl'; cases hl'; rfl
+    subst e
+    refine ⟨l', hl, ?_, fun i h => by have := (hi i h).2; omega⟩
+    rw [hm]
+    constructor
+    · rintro ⟨i, rfl, _, h2⟩; have := h2 (by decide); omega
+    · rintro ⟨h1, h2⟩; exact ⟨(b - x).toNat, by omega, fun h => by omega, fun _ => h1⟩
+
+theorem span_operators_open (p : Endpoint) :
+    Span.rshift (some p) none = .ok ⟨p, .ctx true 0, 1⟩ ∧ Span.rshift none (some p) = .ok ⟨.ctx false 0, p, 1⟩ ∧
+    Span.lshift (some p) none = .ok ⟨.ctx true 0, p, -1⟩ ∧ Span.lshift none (some p) = .ok ⟨p, .ctx false 0, -1⟩ := by
+  cases p <;> simp [Span.rshift, Span.lshift, Span.make, pure, Except.pure]
+
+theorem span_operators_mixed (p q : Period) (h : p.freq ≠ q.freq) :
+    Span.rshift (some (.res p)) (some (.res q)) = .error .mixedFreq ∧
+    Span.lshift (some (.res p)) (some (.res q)) = .error .mixedFreq := by
+  simp [Span.rshift, Span.lshift, Span.make, h, Ne.symm h, throw, throwThe, MonadExceptOf.throw]
+
 /-! ## 7. Non-vacuity: concrete values meet the hypotheses and the models compute -/
 
 example : ValidYmd 2020 2 29 ∧ ymd2ord 2020 2 29 = 737484 ∧ ord2ymd 737484 = (2020, 2, 29) := by decide
